@@ -6,6 +6,7 @@ import lib
 from props import _match_common as mc
 
 ID = "C04"
+REPEAT_PROBE = True   # engine: repeat 1 call in 5 after editing its first result in place (purity / no shared state)
 PROPS = "Props/C04.v"
 MODEL_FILES = mc.MODEL_FILES
 IMPORTS = mc.IMPORTS
